@@ -1,15 +1,28 @@
 ------------------------- MODULE Trace_P2pNeg -------------------------
 (* Trace validation for P2pNeg: one trace = one real activation of two nfcpy stacks
-   (LogicalLinkController.activate over nfc.dep.Initiator / nfc.dep.Target over the simulated
-   air) for one grid configuration, followed by a little LLCP traffic:
+   (ContactlessFrontend.connect(llcp=...) -> LogicalLinkController.activate over nfc.dep.Initiator /
+   nfc.dep.Target over the simulated air) for one grid configuration, followed by traffic:
 
-     Activate(ok, proj)   proj = what both stacks hold + what was seen on the air
-     Frame(dir, size, brty)  every DEP frame of the traffic phase
-     Xfer(dir, n, ok)     an LLCP PDU with n information bytes arrived intact at the peer  *)
-EXTENDS P2pNeg, Json, IOUtils, TLCExt
+     Activate(ok, proj)      proj = what both stacks hold + what was seen on the air
+   light traffic (one LLC PDU each way through llc.exchange):
+     Frame(dir, size, brty)  every DEP frame;   Xfer(dir, n, ok, full)  an LLC PDU arrived intact
+   full traffic (the real run loops with applications filling the frames, bind/c19_traffic.py); everything
+   below is decoded from the frames on the air by the recorder's own decoders:
+     Llc(dir, t, dsap, ssap, info, miux, inner)  one LLC PDU reassembled from the DEP frames; CONNECT/CC
+                             carry the connection MIU their sender announces (negotiation action Announce);
+                             the PDU and, for AGF, every PDU inside are added to the history `sent`
+     Dep(frames)             distinct (dir, transport bytes, bit rate) of all DEP frames after activation
+     Waits(side, cyc)        distinct timeouts (carrier cycles) the side's run loop asked its driver for
+     Turn(side, us)          longest virtual time between receiving an LLC PDU and starting the answer
+     Data(dir, kind, sent, rcvd, ok, problems)   what the receiving application got
 
-VARIABLES tid, l
-tvars == <<c, ph, tid, l>>
+   A behavioural mismatch is a STUCK of <id>.  The C19 invariants (Obey over the `sent` history with the
+   limits taken from the negotiation actions, BitRate, Timeouts, LtoKept, Delivered) are evaluated as step
+   post-conditions; their first violation is reported as <<"STUCK", "<id>#<Inv>", ...>> and validation goes on. *)
+EXTENDS P2pNeg, Json, IOUtils, TLCExt, Sequences
+
+VARIABLES tid, l, soft
+tvars == <<c, ph, conn, sent, tid, l, soft>>
 
 TKinds == {"dep", "ml", "opt", "depx", "llcp"}
 
@@ -17,8 +30,8 @@ Traces == ndJsonDeserialize(IOEnv.TRACE_FILE)
 T == Traces[tid].ev
 C == Traces[tid].const
 
-TInit == /\ tid \in 1..Len(Traces) /\ l = 1
-         /\ c = C.cfg /\ ph = "start"
+TInit == /\ tid \in 1..Len(Traces) /\ l = 1 /\ soft = {}
+         /\ c = C.cfg /\ ph = "start" /\ conn = {} /\ sent = {}
 
 Ev == T[l]
 IsEv(a) == l <= Len(T) /\ Ev.a = a /\ l' = l + 1 /\ UNCHANGED tid
@@ -34,17 +47,59 @@ Proj(e) == [acm |-> e.acm, psl |-> e.psl, brty0 |-> e.brty0, airLrI |-> e.lrI, a
             tSendLsc |-> e.t.sendLsc, tAgf |-> e.t.agf]
 
 E0 == Expected(c)
+Same == UNCHANGED <<c, ph, conn, sent>>
+Range(s) == {s[k] : k \in DOMAIN s}
+Src(dir) == IF dir = "IT" THEN "I" ELSE "T"
+
 GActivate == /\ IsEv("Activate") /\ Activate
              /\ InGrid(C.kind, C.k, c) /\ ValidCfg(c)
              /\ Ev.ok = E0.ok
              /\ (E0.ok => Ev.proj = Proj(E0) /\ Symmetric(E0) /\ WithinRanges(E0))
-GFrame == /\ IsEv("Frame") /\ ph = "up" /\ UNCHANGED vars
+GFrame == /\ IsEv("Frame") /\ ph = "up" /\ Same
           /\ FrameOk(c, Ev.dir, Ev.size, Ev.brty)
-GXfer == /\ IsEv("Xfer") /\ ph = "up" /\ UNCHANGED vars
+GXfer == /\ IsEv("Xfer") /\ ph = "up" /\ Same
          /\ Ev.ok
          /\ Ev.n <= (IF Ev.dir = "IT" THEN E0.i.sendMiu ELSE E0.t.sendMiu)
          /\ (Ev.full => Ev.n = (IF Ev.dir = "IT" THEN E0.i.sendMiu ELSE E0.t.sendMiu))
-Real == GActivate \/ GFrame \/ GXfer
+
+\* the PDUs of one LLC frame: the frame itself and, for an aggregate, the PDUs inside
+Outer == [t |-> Ev.t, dsap |-> Ev.dsap, ssap |-> Ev.ssap, info |-> Ev.info, miux |-> Ev.miux]
+Pdus == IF Ev.t = "AGF" THEN Range(Ev.inner) ELSE {Outer}
+UnitsOf(p, dir) ==
+    {Unit(c, conn, "llc", dir, 0, p.info)}
+    \cup (IF p.t = "UI" THEN {Unit(c, conn, "ui", dir, p.dsap, p.info)} ELSE {})
+    \cup (IF p.t = "I" THEN {Unit(c, conn, "i", dir, p.dsap, p.info)} ELSE {})
+GLlc == /\ IsEv("Llc") /\ ph = "up"
+        /\ conn' = conn \cup {[side |-> Src(Ev.dir), sap |-> p.ssap, miu |-> p.miux] : p \in {q \in Pdus : q.t \in {"CONNECT", "CC"}}}
+        /\ sent' = sent \cup {Unit(c, conn, "llc", Ev.dir, 0, Ev.info)} \cup UNION {UnitsOf(p, Ev.dir) : p \in Pdus}
+        /\ UNCHANGED <<c, ph>>
+GDep == /\ IsEv("Dep") /\ ph = "up"
+        /\ sent' = sent \cup {Unit(c, conn, "dep", f.dir, 0, f.size) : f \in Range(Ev.frames)}
+        /\ UNCHANGED <<c, ph, conn>>
+GWaits == IsEv("Waits") /\ ph = "up" /\ Same
+GTurn  == IsEv("Turn") /\ ph = "up" /\ Same
+GData  == IsEv("Data") /\ ph = "up" /\ Same
+Conform == GActivate \/ GFrame \/ GXfer \/ GLlc \/ GDep \/ GWaits \/ GTurn \/ GData
+
+\* ---- the C19 invariants as post-conditions of a step of the real execution
+InvNames == <<"Obey", "BitRate", "Timeouts", "LtoKept", "Delivered">>
+InvP(n) == CASE n = "Obey" -> ObeyP(sent')
+             [] n = "BitRate" -> (Ev.a = "Dep" => \A f \in Range(Ev.frames) : f.brty = E0.brty /\ f.size >= 2)
+             [] n = "Timeouts" -> (Ev.a = "Waits" => \A w \in Range(Ev.cyc) : w = ExpWait(c, Ev.side))
+             [] n = "LtoKept" -> (Ev.a = "Turn" => Ev.us <= ExpTurn(c, Ev.side))
+             [] n = "Delivered" -> (Ev.a = "Data" => Ev.ok /\ Ev.problems = 0 /\ Ev.rcvd <= Ev.sent
+                                                     /\ (Ev.kind = "I" => Ev.rcvd = Ev.sent))
+Detail(n) == CASE n = "Obey" -> {f \in sent' : f.size > f.limit}
+               [] n = "BitRate" -> <<E0.brty>>
+               [] n = "Timeouts" -> <<ExpWait(c, Ev.side), Ev.cyc>>
+               [] n = "LtoKept" -> <<ExpTurn(c, Ev.side), Ev.us>>
+               [] OTHER -> <<>>
+
+Real == /\ Conform
+        /\ LET bad == {k \in DOMAIN InvNames : InvNames[k] \notin soft /\ ~InvP(InvNames[k])} IN
+           /\ soft' = soft \cup {InvNames[k] : k \in bad}
+           /\ \A k \in bad : PrintT(<<"STUCK", Traces[tid].id \o "#" \o InvNames[k], l, Ev.a,
+                                      <<"inv", InvNames[k], Detail(InvNames[k])>>>>)
 
 Diff(exp, got) == {<<f, exp[f], got[f]>> : f \in {g \in DOMAIN exp : exp[g] # got[g]}}
 Why == CASE Ev.a = "Activate" ->
@@ -53,13 +108,14 @@ Why == CASE Ev.a = "Activate" ->
               ELSE IF E0.ok /\ Ev.proj # Proj(E0) THEN <<"proj", Diff(Proj(E0), Ev.proj)>>
               ELSE <<"inv", Symmetric(E0), WithinRanges(E0)>>
          [] Ev.a = "Frame" -> <<"FrameFits", ph, E0.lrI, E0.lrT, E0.brty>>
-         [] OTHER -> <<"xfer", ph, E0.i.sendMiu, E0.t.sendMiu>>
+         [] Ev.a = "Xfer" -> <<"xfer", ph, E0.i.sendMiu, E0.t.sendMiu>>
+         [] OTHER -> <<"phase", ph>>
 
 Stuck == /\ l <= Len(T)
-         /\ ~ENABLED Real
+         /\ ~ENABLED Conform
          /\ PrintT(<<"STUCK", Traces[tid].id, l, Ev.a, Why>>)
          /\ l' = Len(T) + 2
-         /\ UNCHANGED <<c, ph, tid>>
+         /\ UNCHANGED <<c, ph, conn, sent, tid, soft>>
 
 TNext == Real \/ Stuck
 TSpec == TInit /\ [][TNext]_tvars
